@@ -104,15 +104,25 @@ theorem no_wedge (l : Nat) (ops : List Op) (hl0 : l ≤ 2147483647)
     ∀ s, s = (run (State.init l) ops).1 →
     s.g.adv + s.f.pu = (s.f.limit : Int) + s.f.delta
     ∧ (s.f.pu = 0 ∨ s.f.pu < s.f.limit / 4)
-    ∧ s.g.adv + ((s.g.cfg / 4 : Nat) : Int) ≥ (s.g.cfg : Int)
-    ∧ (0 < s.g.cfg → 0 < s.g.adv) := by
+    ∧ (s.g.adv ≥ (s.g.cfg : Int) ∨ s.g.adv + ((s.g.cfg / 4 : Nat) : Int) > (s.g.cfg : Int))
+    ∧ (0 < s.g.cfg → 0 < s.g.adv) ∧ s.g.restored = true := by
   intro s hs
   subst hs
   obtain ⟨h1, h2, h3, h4, _⟩ := ledger_exact l ops hl0 hl ha _ rfl
   have hpd : (run (State.init l) ops).1.f.pd = 0 := by rw [h2]; exact hread
-  refine ⟨by rw [h1, hpd]; omega, h4, ?_, ?_⟩
-  · rw [h3, h1, hpd]; omega
-  · rw [h3, h1, hpd]; intro hp; omega
+  have hA : (run (State.init l) ops).1.g.adv ≥ ((run (State.init l) ops).1.g.cfg : Int)
+      ∨ (run (State.init l) ops).1.g.adv + (((run (State.init l) ops).1.g.cfg / 4 : Nat) : Int)
+          > ((run (State.init l) ops).1.g.cfg : Int) := by
+    rw [h3, h1, hpd]; rcases h4 with h | h <;> first | (left; omega) | (right; omega)
+  have hB : 0 < (run (State.init l) ops).1.g.cfg → 0 < (run (State.init l) ops).1.g.adv := by
+    rw [h3, h1, hpd]; intro hp; rcases h4 with h | h <;> omega
+  refine ⟨by rw [h1, hpd]; omega, h4, hA, hB, ?_⟩
+  unfold Ghost.restored
+  simp only [Bool.and_eq_true, Bool.or_eq_true, decide_eq_true_eq]
+  refine ⟨hA, ?_⟩
+  by_cases hz : (run (State.init l) ops).1.g.cfg = 0
+  · exact Or.inl hz
+  · exact Or.inr (hB (by omega))
 
 /-- **A read larger than the window is granted**: right after `requestRead(n)` (any n < 2^32) the
     peer may send all of the message that has not arrived yet, `min(n, 2^31−1) − pendingData` bytes,
@@ -165,14 +175,25 @@ theorem conn_window (l : Nat) (ops : List TOp) (hl0 : l ≤ 2147483647)
     (hl : tlegalRun (TState.init l) ops = true) :
     ∀ s, s = trun (TState.init l) ops →
     (s.f.unacked = 0 ∨ s.f.unacked < s.f.limit / 4)
-    ∧ s.adv + ((s.f.limit / 4 : Nat) : Int) ≥ (s.f.limit : Int) ∧ (0 < s.f.limit → 0 < s.adv) := by
+    ∧ (s.adv ≥ (s.f.limit : Int) ∨ s.adv + ((s.f.limit / 4 : Nat) : Int) > (s.f.limit : Int))
+    ∧ (0 < s.f.limit → 0 < s.adv) ∧ connRestored s.adv s.f.limit = true := by
   intro s hs
   subst hs
   have h := trun_inv _ ops (tinv_init l hl0) hl
   obtain ⟨h1, h2, h3⟩ := h
-  refine ⟨h2, ?_, ?_⟩
-  · rw [h3]; omega
-  · rw [h3]; intro hp; omega
+  have hA : (trun (TState.init l) ops).adv ≥ ((trun (TState.init l) ops).f.limit : Int)
+      ∨ (trun (TState.init l) ops).adv + (((trun (TState.init l) ops).f.limit / 4 : Nat) : Int)
+          > ((trun (TState.init l) ops).f.limit : Int) := by
+    rw [h3]; rcases h2 with h | h <;> first | (left; omega) | (right; omega)
+  have hB : 0 < (trun (TState.init l) ops).f.limit → 0 < (trun (TState.init l) ops).adv := by
+    rw [h3]; intro hp; rcases h2 with h | h <;> omega
+  refine ⟨h2, hA, hB, ?_⟩
+  unfold connRestored
+  simp only [Bool.and_eq_true, Bool.or_eq_true, decide_eq_true_eq]
+  refine ⟨hA, ?_⟩
+  by_cases hz : (trun (TState.init l) ops).f.limit = 0
+  · exact Or.inl hz
+  · exact Or.inr (hB (by omega))
 
 -- non-vacuity: a legal history with a message 4x the window, padded frames and a BDP update
 set_option maxRecDepth 100000
